@@ -60,7 +60,11 @@ def universe(tier, seed):
     i = len(out)
     seen = {gen_obj.canon(s) for _, s, _ in out}
     while len(out) < n:
-        s = gen_obj.gen_spec(rng, rng.choice([1, 2, 3, 3, 4]), width=rng.choice([3, 4, 6]))
+        r = rng.random()
+        if r < 0.06:
+            s = big_value(rng)
+        else:
+            s = gen_obj.gen_spec(rng, rng.choice([1, 2, 3, 3, 4, 5]), width=rng.choice([3, 4, 6, 12]))
         c = gen_obj.canon(s)
         if c in seen and rng.random() < 0.9:   # keep a few repeats: same value, different spec order
             continue
@@ -68,6 +72,38 @@ def universe(tier, seed):
         out.append((i, s, False))
         i += 1
     return out
+
+
+def big_value(rng):
+    """values above typical size thresholds: long strings / bytes, wide containers, huge ints, deep nesting"""
+    k = rng.choice(["longstr", "longbytes", "wideset", "widefrozenset", "widedict", "mixeddict", "hugeint", "deep", "widelist", "bytearray", "settuples"])
+    n = rng.choice([17, 33, 65, 130, 257, 1025])
+    if k == "longstr":
+        return ["s", "".join(rng.choice("abcdefé \n") for _ in range(rng.choice([255, 256, 257, 5000, 70000])))]
+    if k == "longbytes":
+        return ["y", rng.randbytes(rng.choice([255, 256, 257, 5000, 70000])).hex()]
+    if k == "bytearray":
+        return ["B", rng.randbytes(rng.choice([1, 255, 256, 5000])).hex()]
+    if k == "wideset":
+        return ["S", gen_obj.distinct([rng.choice([["i", str(rng.randrange(-n, n))], ["s", "k%d" % rng.randrange(n)]]) for _ in range(n)])]
+    if k == "widefrozenset":
+        return ["F", gen_obj.distinct([["s", "k%d" % rng.randrange(10 * n)] for _ in range(n)])]
+    if k == "settuples":
+        return rng.choice(["S", "F"]) and [rng.choice(["S", "F"]), gen_obj.distinct([["T", [["i", str(rng.randrange(9))], ["s", "t%d" % rng.randrange(n)]]] for _ in range(n // 2)])]
+    if k == "widedict":
+        keys = gen_obj.distinct([["s", "k%d" % rng.randrange(10 * n)] for _ in range(n)])
+        return ["D", [[kk, ["i", str(rng.randrange(5))]] for kk in keys]]
+    if k == "mixeddict":
+        keys = gen_obj.distinct([rng.choice([["s", "k%d" % i], ["i", str(i + 2)], ["y", "%02x" % (i % 256)], ["T", [["i", str(i)]]], ["F", [["i", str(i)]]], ["n"]]) for i in range(n // 4)])
+        return ["D", [[kk, ["L", [["s", "v"], ["S", [["i", "1"], ["s", "a"]]]]]] for kk in keys]]
+    if k == "hugeint":
+        return ["L", [["i", str(rng.choice([2 ** 63 - 1, 2 ** 63, 2 ** 64, -2 ** 64, 2 ** 200 + rng.randrange(9), 10 ** 400]))], ["i", "1"]]]
+    if k == "widelist":
+        return ["L", [rng.choice(gen_obj.LEAVES) for _ in range(n)]]
+    spec = ["S", [["i", "1"], ["s", "leaf"]]]
+    for d in range(rng.choice([6, 10, 20])):
+        spec = rng.choice([["L", [spec]], ["D", [[["s", "k"], spec]]], ["T", [spec, ["i", str(d)]]]])
+    return spec
 
 
 _UNI = {}
